@@ -719,8 +719,10 @@ class ParserField:
                     # if no getter function
                     # dependant will not affect
                     field.add_dependant(self.name)
-                if dep not in dependencies:
-                    dependencies.append(dep)
+                if field.name not in dependencies:
+                    # the name under which the field appears in the parsed data
+                    # (the key of `fields` is lower-cased for a case-insensitive field)
+                    dependencies.append(field.name)
                 if field.attname not in attr_dependencies:
                     attr_dependencies.append(field.attname)
             self.dependencies = set(dependencies)
